@@ -15,7 +15,7 @@ open SimF (FT FnInfo FTInj paramScope bigScope lookupD)
     machine stops at one of its limits (stack height / number of frames at a call), which the semantics does not have -/
 theorem top_program7 (p : RBlock) (Γ' : Gam) (hy : ZTop7 [] p Γ')
     (hnd : (litsTop [] p 0 []).Pairwise (fun x y => x.1 ≠ y.1)) (bc : Bytecode) (hc : compileR p = .ok bc) (F : Nat) :
-    (∃ n s', ∀ k, runSteps bc.code (n + k) (VM.start {} bc) = .error .index s') ∨
+    HitsLimit bc ∨
     match evalB F p {} with
     | .val () st' => ∃ mv n s', (∀ k, runSteps bc.code (n + k) (VM.start {} bc) = .value mv s') ∧
         s'.mem.heap.tree treeDepth [] mv = st'.tree treeDepth [] st'.last ∧ s'.out = st'.out ∧
@@ -63,10 +63,10 @@ theorem top_program7 (p : RBlock) (Γ' : Gam) (hy : ZTop7 [] p Γ')
     rw [hstart]; exact TI.start_wt {} bc TI.wt_empty
   have hsim := ptop7 hW p hy 0 [] (by rw [hDdef]; exact hD) (by simp [GamOK]) F (fun _ => none) {} #[] .null (VM.start {} bc).mem [] hinv0 hwt0 h1 hext
   rcases hsim with hov | hsim
-  · obtain ⟨n, s1, s2, hn, hs⟩ := hov
+  · obtain ⟨n, s1, hn, hl⟩ := hov
     simp only [Cfg.vm] at hn
     rw [hstart] at hn
-    exact .inl ⟨n + 1, s2, fun k => run_error bc.code n _ s1 .index s2 hn hs k⟩
+    exact .inl ⟨n, s1, hn, hl⟩
   refine .inr ?_
   cases hr : evalB F p {} with
   | val u st' =>
